@@ -217,7 +217,10 @@ def run_case(case):
             Result._latest = res
             est = so.check_estimators(s, r5, 'c10', split,
                                       want_posterior=False)
-            if est is not None and not r5.violations and not est['bad']:
+            # (the predicate is recomputed from the raw stored arrays; it is
+            # used even when the sampler's own statistics disagree with them -
+            # a success test evaluated on the wrong view is exactly that)
+            if est is not None and not est['bad']:
                 view_n = est['shell_n']
                 ne = est['n_eff']
                 if ne is None:
